@@ -66,5 +66,10 @@ void harness(void) {
 	if (res == KSI_INVALID_FORMAT) REACH("rejected: format");
 	if (res == KSI_BUFFER_OVERFLOW) REACH("rejected: truncated character");
 	if (res != KSI_OK && tlv.raw_res == KSI_OK && len == 0) REACH("rejected: empty payload");
+#ifdef LEAK_VARIANT
+	/* with --memory-leak-check: after releasing the returned object nothing allocated by the parser is left, on every
+	 * path including every allocation failure (C12 / C19) */
+	if (res == KSI_OK) KSI_Utf8String_free(out);
+#endif
 }
 #endif
